@@ -35,11 +35,19 @@ def run(eng: Engine, ck: Check):
         if f.module.rel != TM:
             continue
         for n in walk_local(f.node):
-            if isinstance(n, ast.Assign) and enum_member(n.value) == 'COMPLETE' and mentions(n.value, 'TransferState'):
-                sites.append((f, n, 'state = COMPLETE'))
+            if isinstance(n, ast.Assign) and mentions(n.value, 'TransferState'):
+                for conds, leaf in cond_values(eng, f, n):      # if/else assignment or conditional expression: same choice
+                    if enum_member(leaf) == 'COMPLETE':
+                        sites.append((f, n, 'state = COMPLETE', conds))
     ck.floor('R-C04-GUARD', len([s for s in sites if s[2] != 'init_from_state(..)']), 3)
-    for f, c, what in sites:
+    for site in sites:
+        f, c, what = site[:3]
         ck.visited(f)
+        if len(site) == 4:
+            g = any(pol and isinstance(e, ast.Call) and call_name(e) == 'is_transfered' for e, pol in site[3])
+            ck.ob('R-C04-GUARD', f, c, f'{f.qualname}: `{what}` is control dependent on the true branch of is_transfered()', g,
+                  'COMPLETE requested without the size check', construct=f'{f.qualname} {what}')
+            continue
         if what == 'init_from_state(..)':
             # the state passed must not be a literal COMPLETE outside the guard (handled through the assignment sites)
             if c.args and enum_member(c.args[0]) == 'COMPLETE':
@@ -118,23 +126,53 @@ def run(eng: Engine, ck: Check):
 
     # ---- R-C04-RESUME: offset provenance
     idl = eng.func(TM, 'TransferManager._initialize_download')
-    co = eng.func(TM, 'TransferManager._calculate_offset')
-    ck.visited(co)
-    for r in [n for n in walk_local(co.node) if isinstance(n, ast.Return)]:
-        v = r.value
+    # the offset is whatever is recorded in bytes_transfered; every definition of it must be 0 or the size of the local file (directly or
+    # through a helper of the manager all of whose returns are)
+    tmc = eng.cls('TransferManager', TM)
+    stores_bt = [(st, v) for f, st, v in eng.stores_to_attr('bytes_transfered', [idl])]
+    off_names = sorted({v.id for st, v in stores_bt if isinstance(v, ast.Name)})
+    ck.ob('R-C04-RESUME', idl, idl.node, 'the offset recorded in bytes_transfered is one local value', len(off_names) == 1 and len(stores_bt) == 1,
+          f'{[unparse(s_) for s_, _ in stores_bt]}', construct='offset single definition')
+
+    def offset_source(fn: FuncInfo, v: ast.AST, at: ast.AST, depth=0) -> bool:
         if isinstance(v, ast.Await):
             v = v.value
-        zero = const(v) == 0
-        size = isinstance(v, ast.Call) and call_name(v) == 'getsize' and v.args and chain_str(v.args[0]) == 'transfer.local_path'
-        ck.ob('R-C04-RESUME', co, r, 'the resume offset is 0 or the size of the local file on disk (nothing else)', zero or size,
-              f'returns `{unparse(r.value)}`', construct=f'_calculate_offset returns {alpha_key(r.value)}')
-    sa = single_assignments(idl)
-    off_names = [k for k, v in sa.items() if any(call_name(x) == '_calculate_offset' for x in ast.walk(v))]
-    ck.ob('R-C04-RESUME', idl, idl.node, 'the offset is computed once by _calculate_offset', len(off_names) == 1,
-          f'{off_names}', construct='offset single definition')
+        if const(v) == 0 and not isinstance(const(v), bool):
+            ck.ob('R-C04-RESUME', fn, at, 'the resume offset is 0 or the size of the local file on disk (nothing else)', True, '', construct=f'offset source 0 in {fn.name}')
+            return True
+        if isinstance(v, ast.Call) and call_name(v) == 'getsize' and v.args and chain_str(v.args[0]) == 'transfer.local_path':
+            ck.ob('R-C04-RESUME', fn, at, 'the resume offset is 0 or the size of the local file on disk (nothing else)', True, '', construct=f'offset source getsize in {fn.name}')
+            return True
+        if isinstance(v, ast.Call) and isinstance(v.func, ast.Attribute) and unparse(v.func.value) == 'self' and v.func.attr in tmc.methods and depth < 3:
+            h = tmc.methods[v.func.attr]
+            ck.visited(h)
+            tp = [p_ for p_ in h.params if p_ != 'self']
+            passes = len(v.args) == 1 and len(tp) == 1 and chain_str(v.args[0]) == 'transfer' and tp[0] == 'transfer'
+            rets = [n for n in walk_local(h.node) if isinstance(n, ast.Return)]
+            ok = passes and bool(rets) and not eng.falls_off_end(h)
+            for r_ in rets:
+                if r_.value is None or not offset_source(h, r_.value, r_, depth + 1):
+                    ok = False
+            return ok
+        ck.ob('R-C04-RESUME', fn, at, 'the resume offset is 0 or the size of the local file on disk (nothing else)', False, f'`{unparse(v)}`',
+              construct=f'offset source {alpha_key(v)} in {fn.name}')
+        return False
+    n_src = 0
+    if len(off_names) == 1:
+        for n in walk_local(idl.node):
+            if isinstance(n, (ast.Assign, ast.AnnAssign)) and n.value is not None and any(isinstance(t_, ast.Name) and t_.id == off_names[0] for t_ in
+                                                                                       (n.targets if isinstance(n, ast.Assign) else [n.target])):
+                offset_source(idl, n.value, n)
+                n_src += 1
+            elif isinstance(n, (ast.AugAssign, ast.NamedExpr, ast.For, ast.AsyncFor, ast.With, ast.AsyncWith)) and any(
+                    isinstance(t_, ast.Name) and isinstance(t_.ctx, ast.Store) and t_.id == off_names[0] for t_ in ast.walk(n) if not isinstance(n, (ast.For, ast.AsyncFor, ast.With, ast.AsyncWith)) or
+                    t_ in list(ast.walk(getattr(n, 'target', None) or ast.Tuple([i_.optional_vars for i_ in getattr(n, 'items', []) if i_.optional_vars], ast.Store())))):
+                ck.ob('R-C04-RESUME', idl, n, 'the resume offset is 0 or the size of the local file on disk (nothing else)', False, f'`{unparse(n)[:60]}`',
+                      construct='offset modified in place')
+        ck.floor('R-C04-RESUME.sources', n_src, 1)
     if len(off_names) == 1:
         off = off_names[0]
-        st_bt = [(st, v) for f, st, v in eng.stores_to_attr('bytes_transfered', [idl])]
+        st_bt = stores_bt
         ck.ob('R-C04-RESUME', idl, idl.node, 'bytes_transfered is set to that offset', len(st_bt) == 1 and unparse(st_bt[0][1]) == off,
               f'{[unparse(s) for s, _ in st_bt]}', construct='bytes_transfered = offset')
         sends = [c for c in calls_on(idl.node, 'send_message') if any(call_name(x) == 'uint64' for x in ast.walk(c))]
@@ -203,6 +241,8 @@ def run(eng: Engine, ck: Check):
         ck.ob('R-C04-FAULT', caller, call, '_remove_local_file is called only from abort()', caller.name == 'abort',
               f'called from {caller.qualname}', construct=f'{caller.qualname} removes file')
 
+    from . import defs
+    defs.transfer_direction_predicates(eng, ck, 'R-C04-GUARD')
     task_fault_rule(eng, ck)
 
     # ---- R-C04-RETRY
